@@ -420,6 +420,78 @@ def extra_layout_suite(ctx: Ctx, n: int):
                          f"a fresh retort on a fresh copy gives {want!r:.120}", case)
 
 
+def mapping_input_suite(ctx: Ctx, n: int):
+    """loading a model from ANY mapping leaves that mapping untouched: inputs whose __getitem__ has side effects (defaultdict,
+    a dict subclass with a recording __missing__), Counter, ChainMap, OrderedDict, a read-only MappingProxyType; models with
+    several optional fields omitted in every combination; plain and flattened layouts; all modes"""
+    import collections
+    import dataclasses
+    import types
+
+    from adaptix import DebugTrail, Retort, name_mapping
+    rng = ctx.rng
+
+    class Recording(dict):
+        def __missing__(self, key):
+            self[key] = "<fabricated>"
+            return self[key]
+    for i in range(n):
+        k = rng.randint(2, 5)
+        names = [f"f{j}" for j in range(k)]
+        optional = {nm: (j > 0 and rng.random() < 0.7) for j, nm in enumerate(names)}
+        fields = [(nm, int) for nm in names if not optional[nm]] + \
+                 [(nm, list, dataclasses.field(default_factory=list)) if rng.random() < 0.5 else (nm, int, dataclasses.field(default=7))
+                  for nm in names if optional[nm]]
+        cls = dataclasses.make_dataclass(f"MI{i}", fields)
+        nested = rng.random() < 0.4
+        recipe = [name_mapping(cls, map={nm: ("inner", nm) for nm in names[1:]})] if nested else []
+        present = {nm: 1 for nm in names if not optional[nm] or rng.random() < 0.4}
+        for nm in list(present):
+            if dict((f[0], f[1]) for f in fields)[nm] is list:
+                present[nm] = [1]
+        plain = {names[0]: present.get(names[0], 1)}
+        if nested:
+            plain["inner"] = {nm: v for nm, v in present.items() if nm != names[0]}
+        else:
+            plain.update(present)
+        mode = rng.choice(list(DebugTrail))
+        retort = Retort(recipe=recipe, debug_trail=mode)
+        try:
+            want = retort.load(plain, cls)
+        except Exception:  # noqa: BLE001
+            continue
+        makers = {
+            "defaultdict": lambda d: collections.defaultdict(list, d), "Recording": lambda d: Recording(d),
+            "Counter": lambda d: collections.Counter(d) if all(isinstance(v, int) for v in d.values()) else None,
+            "ChainMap": lambda d: collections.ChainMap(dict(d)), "OrderedDict": lambda d: collections.OrderedDict(d),
+            "MappingProxyType": lambda d: types.MappingProxyType(dict(d)),
+        }
+        for mname, mk in makers.items():
+            def build(d):
+                top = {key: (mk(v) if isinstance(v, dict) else v) for key, v in d.items()}
+                return mk(top)
+            inp = build(plain)
+            if inp is None or (nested and inp.get("inner") is None):
+                continue
+            snap = {key: (dict(v) if hasattr(v, "keys") else v) for key, v in dict(inp).items()}
+            case = {"suite": "mapping-input", "input": mname, "fields": {nm: "optional" if optional[nm] else "required" for nm in names},
+                    "present": sorted(present), "nested": nested, "mode": mode.name}
+            ctx.note_case(case, nontrivial=len(present) < k, kind=f"mapping-input:{mname}:{'nested' if nested else 'flat'}")
+            try:
+                got = retort.load(inp, cls)
+            except Exception as e:  # noqa: BLE001
+                ctx.dist[f"mapping-input:{mname}:raises-{type(e).__name__}"] += 1
+                got = None
+            after = {key: (dict(v) if hasattr(v, "keys") else v) for key, v in dict(inp).items()}
+            if after != snap:
+                ctx.fail("load-mutates-argument", f"loading {cls.__name__} from a {mname} changed the input: before {snap!r:.120} after "
+                         f"{after!r:.120}", case)
+                break
+            if got is not None and got != want and mname not in ("defaultdict", "Recording", "Counter"):
+                ctx.fail("load-not-repeatable", f"loading from a {mname} gives {got!r:.100}; from the equal plain dict {want!r:.100}", case)
+                break
+
+
 def convert_probes(ctx: Ctx):
     from adaptix.conversion import get_converter
 
@@ -455,6 +527,7 @@ def run(ctx: Ctx):
     default_probes(ctx)
     extra_probes(ctx)
     extra_layout_suite(ctx, ctx.budget(120, 2000))
+    mapping_input_suite(ctx, ctx.budget(80, 1500))
     convert_probes(ctx)
 
 
@@ -465,6 +538,7 @@ def search(ctx: Ctx):
     default_probes(ctx)
     extra_probes(ctx)
     extra_layout_suite(ctx, 1500)
+    mapping_input_suite(ctx, 800)
     convert_probes(ctx)
 
 
@@ -473,5 +547,6 @@ def replay(ctx: Ctx, case) -> bool:
     default_probes(ctx)
     extra_probes(ctx)
     extra_layout_suite(ctx, 400)
+    mapping_input_suite(ctx, 300)
     convert_probes(ctx)
     return len(ctx.failures) > before
